@@ -433,6 +433,8 @@ type DstScript struct {
 	NackIdx map[int]bool
 	// LatencyUs: latency classes; the class of a response is chosen by hash.
 	LatencyUs []int
+	// LatencyAt: index of the first record of a write -> latency of that write (overrides LatencyUs).
+	LatencyAt map[int]int `json:",omitempty"`
 	// PerRecordAcks: one response per record instead of one per request.
 	PerRecordAcks bool
 	// Shape: write ordinal of the session (1-based, counted in records)
@@ -679,8 +681,14 @@ func (s *dstSession) Run(ctx context.Context, stream pconnector.DestinationRunSt
 			continue
 		}
 		// latency class
-		if n := len(st.Script.LatencyUs); n > 0 {
-			us := st.Script.LatencyUs[int(H(st.Script.Seed, st.ID, "lat", items[0].lin.String())%uint64(n))]
+		if n := len(st.Script.LatencyUs); n > 0 || len(st.Script.LatencyAt) > 0 {
+			us := 0
+			if n > 0 {
+				us = st.Script.LatencyUs[int(H(st.Script.Seed, st.ID, "lat", items[0].lin.String())%uint64(n))]
+			}
+			if at, ok := st.Script.LatencyAt[items[0].lin.Idx]; ok {
+				us = at
+			}
 			if us > 0 {
 				select {
 				case <-time.After(time.Duration(us) * time.Microsecond):
